@@ -28,6 +28,7 @@ pub struct Cfg {
     pub dump_each: bool,
     pub rows_each: Vec<String>,
     pub default_chan: bool,
+    pub user_vars: Value,
 }
 
 impl Cfg {
@@ -51,6 +52,7 @@ impl Cfg {
                 })
                 .unwrap_or_default(),
             default_chan: g("default_chan").as_bool().unwrap_or(true),
+            user_vars: g("user_vars"),
         }
     }
 }
@@ -139,12 +141,38 @@ fn write_toml(cfg: &Cfg, dir: &str) -> String {
     path
 }
 
+/// a user variable module registered by the client: a name and default data (config "user_vars": {name: {defaults}})
+#[derive(Clone)]
+struct UserVar {
+    name: String,
+    defaults: Value,
+}
+
+impl acts::ActUserVar for UserVar {
+    fn name(&self) -> String {
+        self.name.clone()
+    }
+    fn default_data(&self) -> Option<Vars> {
+        if self.defaults.is_object() {
+            Some(Vars::from(self.defaults.clone()))
+        } else {
+            None
+        }
+    }
+}
+
 async fn build_engine(cfg: &Cfg, toml: &str) -> Engine {
     let mut b = EngineBuilder::new().set_config_source(std::path::Path::new(toml));
     if cfg.sqlite {
         b = b.add_plugin(&SqliteStore);
     }
-    b.build().await.expect("build engine").start()
+    let engine = b.build().await.expect("build engine").start();
+    if let Some(vars) = cfg.user_vars.as_object() {
+        for (name, defaults) in vars {
+            engine.extender().register_var(&UserVar { name: name.clone(), defaults: defaults.clone() });
+        }
+    }
+    engine
 }
 
 fn attach(chan: &Arc<Channel>, id: &str, log: &Log, only: &Option<Vec<String>>) {
